@@ -104,8 +104,9 @@ inductive Trial (n : Nat) (α : Type) where
   /-- `HamiltonianCanonical.step` with `HamiltonianDisplacementMove(Verlet(dt, steps))` -/
   | ham (dt : α) (steps : Nat) (kT ndof : α) (forced : Bool) (maxAttempts : Nat) (zs : List (Arr n α))
       (checks : List Bool) (accept : Bool)
-  /-- `ForceBias.step` with the raw `displacement` array (any delta, temperature, zeta) -/
-  | fb (disp : Arr n α)
+  /-- `ForceBias.step` with the raw `displacement` array (any delta, temperature, zeta) and the driver's own mass
+      table `shaped_masses` (any (n, 3) table: `update_masses`, or the atoms' masses at construction) -/
+  | fb (disp : Arr n α) (shaped : Arr n α)
 
 /-- `MonteCarlo.step` for one selected move: `if move(context): accepted → save_state, rejected →
     revert_state`; `ForceBias.step` for `fb`.  `apply` = the moves' `apply_constraints` flag. -/
@@ -124,12 +125,12 @@ def runTrial (c : Cons n α) (apply : Bool) (F : Arr n α → Arr n α) (m : Col
       if accept then { q := r.2.q, p := r.2.p, lastQ := r.2.q, lastP := r.2.p }
       else { s with q := s.lastQ, p := s.lastP }
     else { s with q := r.2.q, p := r.2.p }
-  | .fb disp, s =>
+  | .fb disp shaped, s =>
     -- self.atoms.set_momenta(self.shaped_masses * displacement)
-    let p' := Tab.get (setMomenta c true s.q (fun i k => m i * disp i k))
+    let p' := Tab.get (setMomenta c true s.q (fun i k => shaped i k * disp i k))
     -- corrected_displacement = self.atoms.get_momenta() / self.shaped_masses
     -- self.atoms.set_positions(positions + corrected_displacement)
-    let q' := Tab.get (setPositions c true s.q (fun i k => s.q i k + p' i k / m i))
+    let q' := Tab.get (setPositions c true s.q (fun i k => s.q i k + p' i k / shaped i k))
     { s with q := q', p := p' }
 
 /-- a history of trials -/
